@@ -173,7 +173,6 @@ def run_case(rec, case):
                         rec.violation(dict(sig, route=name, arg=arg, oracle='result shape'), case, {'got': list(y.shape)}); continue
                     rec.check_close(name, float(np.abs(y.ravel() - ref).max()), float(200 * 2.2e-16 * (np.abs(M) @ np.abs(x)).max() * n + 1e-300),
                                     dict(sig, route=name, arg=arg), case)
-        rec.count('oracle:matmat'); rec.count('oracle:adjoint')
     elif kind in ('solver', 'kronsolver'):
         def rand_solvable(n, flavour):
             A = rng.standard_normal((n, n))
